@@ -328,6 +328,7 @@ def run_history(sids0, names0, ops, tmpdir):
     c = mk_coll(sids0, names0)
     steps, problems = [], []
     cur_sids = list(sids0)
+    watch = []          # (collection an earlier operation was applied to, its snapshot, that operation): must never change afterwards
     for k, op in enumerate(ops):
         before = [snapshot(x) for x in ([c] if op[0] not in ("setfn", "propget", "setlen") else [])]
         cur_len = len(c)
@@ -342,6 +343,13 @@ def run_history(sids0, names0, ops, tmpdir):
             after = snapshot(ap.operands[0])
             if after != before[0]:
                 problems.append((k, "operation %s modified the collection it was applied to" % op[0], cur_len))
+        for (wobj, wsnap, wop) in watch:
+            if snapshot(wobj) != wsnap:
+                problems.append((k, "operation %s on the result of %s modified the collection %s had been applied to" % (op[0], wop, wop), cur_len))
+                watch = []
+                break
+        if before and ap.operands and ap.coll is not ap.operands[0]:
+            watch = (watch + [(ap.operands[0], before[0], op[0])])[-3:]
         c = ap.coll
         obs = observe(c)
         sids, arrs = obs
